@@ -65,7 +65,9 @@ def worker(cfg, tier='quick'):
         bad_cells, bad_struct = [], []
         for p in ps:
             if p.exc is not None:
-                col.record('C18/no-exception', 'sat', 0, True, None, f'{type(p.exc).__name__}: {p.exc}')
+                r_, m_, dt_ = col.solve(base + p.pc)
+                col.record('C18/no-exception', r_, dt_, True, wit(m_) if m_ is not None else None,
+                           f'{type(p.exc).__name__}: {p.exc}')
                 continue
             r, obs, cl = p.value
             want_kind = 'sum' if log_output else 'prod'
@@ -126,9 +128,12 @@ def replay(path):
     try:
         got = model.error_probability(e, code, 0.1, log_output=False)
         bad = abs(got - want) > 1e-9 * max(1.0, abs(want))
-        if want > 0 and not bad:
-            gl = model.error_probability(e, code, 0.1, log_output=True)
-            bad = abs(gl - np.log(want)) > 1e-9 * max(1.0, abs(np.log(want)))
+        if not bad:
+            with np.errstate(divide='ignore'):
+                gl = model.error_probability(e, code, 0.1, log_output=True)
+            wl = np.log(want) if want > 0 else -np.inf
+            print('log form', gl, 'log of the product', wl)
+            bad = (gl != wl) if not np.isfinite(wl) else abs(gl - wl) > 1e-9 * max(1.0, abs(wl))
         print('error_probability', got, 'product of channel probabilities', want)
     except Exception as ex:
         print('exception on replay', type(ex).__name__, ex)
